@@ -78,7 +78,7 @@ TEXT["C01"] = dict(
 )
 
 TEXT["C09"] = dict(
-    level="Online shadow-model monitoring with an invariant hook: on 800 configurations, every operation sequence to depth 3/4 over a 30-operation alphabet (for ~200 representative configurations) and long random walks (for all) run on the real cache while a shadow LRU model is advanced in lock-step; after every API call - including the Get/Set/Del/Clear/Stats calls the monitor itself issues from inside OnDelete, two levels deep - the hook's snapshot (entries in LRU order, link integrity, byte accounting) must equal the model, every observed eviction must be the LRU entry, reported once, with room needed, and bounds must hold. Built with checkptr; thorough adds an ASan build. Exploration.",
+    level="Online shadow-model monitoring with an invariant hook: on 800 configurations, every operation sequence to depth 3/4 over a 37-operation alphabet (5 keys incl. the empty one x 5 values incl. nil and empty) (for ~200 representative configurations) and long random walks (for all) run on the real cache while a shadow LRU model is advanced in lock-step; after every API call - including the Get/Set/Del/Clear/Stats calls the monitor itself issues from inside OnDelete, two levels deep - the hook's snapshot (entries in LRU order, link integrity, byte accounting) must equal the model, every observed eviction must be the LRU entry, reported once, with room needed, and bounds must hold. Built with checkptr; thorough adds an ASan build. Exploration.",
     note="Trusts the 200-line model in harness/c09/model.go and the add-only hook cache/verif_hooks.go (reads under the cache's own mutex). Both accountings of a to-be-replaced entry are accepted.",
     technique="runtime shadow-model monitor + structural invariant hook after every call, bounded-exhaustive and random histories, checkptr/ASan",
 )
